@@ -975,6 +975,17 @@ def evaluate(ctx, cases):
                 else:
                     ctx.hist("process_args_checked", len(xa.get("process_args") or []))
                 noex = (hyps.get((ci, 0)) or {}).get("noExactLine")
+                # inexact mode (setupType build): the real parser on the expanded table vs the composed model, and the theorem's instance
+                ra = r.get("actions")
+                if isinstance(ra, list) and len(ra) == 2 and "direct_build" in ma:
+                    mb = ma["direct_build"] if isinstance(ma["direct_build"], str) else [[a["cmd"], a["args"], a["extra"].get("optional")] for a in ma["direct_build"]]
+                    ib = "error" if isinstance(ra[1], str) else ra[1]
+                    if ib != mb:
+                        ctx.disagree("inexact_mode_actions", {"case": inp, "expansion": 0}, ib, mb)
+                    if ma["itemOK"] and c["opts"]["addExactBlock"]:
+                        ctx.hist("inexact_actions_theorem_instance")
+                        if ma["acts_build"] != ma["direct_build"]:
+                            raise common.InfraError("C17_inexact_actions_text contradicted by the driver")
                 ctx.hist("hyp_blocksOK=%s" % ma["blocksOK"])
                 ctx.hist("hyp_inert2=%s" % ma["inert2"])
                 if ma["blocksOK"] and c["opts"]["addExactBlock"]:
